@@ -612,14 +612,8 @@ private:
 
                         nano *= uint64_t(nanos_in_second);
 
-                        if (nano < 0)
-                        {
-                            nano -= nsec;
-                        }
-                        else
-                        {
-                            nano += nsec;
-                        }
+                        // timestamp 96: the instant is seconds + nanoseconds * 1e-9, also for negative seconds
+                        nano += nsec;
 
                         text_buffer_.clear();
                         nano.write_string(text_buffer_);
